@@ -1,7 +1,9 @@
 /* WARNING: This file is #included into two places, since the definition
    of malloc() differs.  Be careful. */
 
-static int cond_get_exp (int);
+#include <stdint.h>
+
+static int64_t cond_get_exp (int);	/* LPC integers are 64-bit, so is #if arithmetic */
 static void handle_cond (int);
 
 #ifndef LEXER
@@ -110,7 +112,7 @@ static void handle_elif () {
           *--outptr = '\0';
           add_input (expr);
 #endif
-          cond = cond_get_exp (0);
+          cond = (cond_get_exp (0) != 0);
 #ifdef LEXER
           if (*outptr++)
             {
@@ -212,9 +214,10 @@ static char optab2[] =
 
 #define optab1 (_optab-' ')
 
-static int cond_get_exp (int priority) {
+static int64_t cond_get_exp (int priority) {
   int c;
-  int value, value2, x;
+  int64_t value, value2;
+  int x;
 
 #ifdef LEXER
   do
@@ -370,13 +373,17 @@ static int cond_get_exp (int priority) {
           value *= value2;
           break;
         case DIV:
-          if (value2)
+          if (value2 == -1)
+            value = (int64_t)(0 - (uint64_t)value);	/* INT64_MIN / -1 traps */
+          else if (value2)
             value /= value2;
           else
             yyerrorp ("division by 0 in %cif");
           break;
         case MOD:
-          if (value2)
+          if (value2 == -1)
+            value = 0;
+          else if (value2)
             value %= value2;
           else
             yyerrorp ("modulo by 0 in %cif");
